@@ -1,14 +1,25 @@
 /-
   Core B (strings), executable model.  Core Lean only.
-  `quoteByte` is the `_SingleQuoteTab` of native/parsing.h (what encoder.Quote emits):
-  control characters as \u00XX except \t \n \r, `"` and `\` with a backslash.
+
+  Sources transliterated:
+    native/parsing.h:30   _SingleQuoteTab                 -> `quoteByte`
+    native/parsing.h:67   _DoubleQuoteTab                 -> `quoteByteD`
+    native/quote.c        quote (restartable)             -> `quoteCall`
+    internal/encoder/alg/spec.go:64 Quote (grow + retry)  -> `quoteLoop`, `quote`, `quoteD`
+    native/parsing.h:383  _UnquoteTab                     -> `simpleEsc` (+ the `u` entry handled in `escBody`)
+    native/parsing.h:481-502 ishex/unhex16_is/unhex16_fast-> `hex4`
+    native/unquote.c      unquote                         -> `unquote unirep dbl`
+    unquote/unquote.go:30 String = unquote with F_UNICODE_REPLACE
+  UTF-8 and HTML parts: Model/StrUtf8.lean, Model/StrHtml.lean.
 -/
 import SonicSpec.Model.Hex
+import SonicSpec.Model.StrUtf8
+import SonicSpec.Model.StrHtml
 namespace SonicSpec.Str
 
 def hexLow (n : UInt8) : UInt8 := if n < 10 then 48 + n else 87 + n
 
-/-- image of one input byte inside a JSON string literal (single quoting) -/
+/-- image of one input byte inside a JSON string literal (single quoting, parsing.h:30) -/
 def quoteByte (c : UInt8) : Bytes :=
   if c == 34 then [92, 34]
   else if c == 92 then [92, 92]
@@ -18,9 +29,293 @@ def quoteByte (c : UInt8) : Bytes :=
   else if c < 32 then [92, 117, 48, 48, hexLow (c / 16), hexLow (c % 16)]
   else [c]
 
-def quoteBody (s : Bytes) : Bytes := s.flatMap quoteByte
+/-- image of one input byte in double quoting (a literal inside a literal, parsing.h:67) -/
+def quoteByteD (c : UInt8) : Bytes :=
+  if c == 34 then [92, 92, 92, 34]
+  else if c == 92 then [92, 92, 92, 92]
+  else if c == 9 then [92, 92, 116]
+  else if c == 10 then [92, 92, 110]
+  else if c == 13 then [92, 92, 114]
+  else if c < 32 then [92, 92, 117, 48, 48, hexLow (c / 16), hexLow (c % 16)]
+  else [c]
 
-/-- `encoder.Quote` -/
+def quoteBody (s : Bytes) : Bytes := s.flatMap quoteByte
+def quoteBodyD (s : Bytes) : Bytes := s.flatMap quoteByteD
+
+/-- One native call (quote.c) with `room` bytes left in the destination: images are written while they
+    fit (plain bytes one by one up to the room, parsing.h:135 memcchr_quote; an escape only when it fits
+    entirely, quote.c:47-50); returns what was written and the unconsumed input. -/
+def quoteCall (tab : UInt8 → Bytes) : Nat → Bytes → Bytes × Bytes
+  | _, [] => ([], [])
+  | room, c :: t =>
+    if room < (tab c).length then ([], c :: t)
+    else match quoteCall tab (room - (tab c).length) t with
+      | (o, r) => (tab c ++ o, r)
+
+/-- spec.go:64 `Quote`: repeat the native call on the rest with a grown buffer until the input is
+    consumed.  `rooms` = free space offered to the successive calls (any growth policy); unbounded once
+    the list is used up (the real policy doubles the capacity). -/
+def quoteLoop (tab : UInt8 → Bytes) : List Nat → Bytes → Bytes → Bytes
+  | [], buf, src => buf ++ src.flatMap tab
+  | room :: rooms, buf, src =>
+    match quoteCall tab room src with
+    | (o, []) => buf ++ o
+    | (o, r) => quoteLoop tab rooms (buf ++ o) r
+
+/-- `encoder.Quote` (spec.go:64 with double = false) -/
 def quote (s : Bytes) : Bytes := 34 :: (quoteBody s ++ [34])
+
+/-- spec.go:64 with double = true (what a `,string` field of type string is encoded as) -/
+def quoteD (s : Bytes) : Bytes := [34, 92, 34] ++ quoteBodyD s ++ [92, 34, 34]
+
+/-! ### unquote -/
+
+/-- native error kinds of `unquote` (types.go:83-86) -/
+inductive UErr where
+  | eof       -- ERR_EOF
+  | escape    -- ERR_INVALID_ESCAPE
+  | inval     -- ERR_INVALID_CHAR
+  | unicode   -- ERR_INVALID_UNICODE
+  deriving DecidableEq, Repr
+
+instance : DecidableEq (Except UErr Bytes)
+  | .ok a, .ok b => if h : a = b then isTrue (by rw [h]) else isFalse (by intro e; cases e; exact h rfl)
+  | .error a, .error b => if h : a = b then isTrue (by rw [h]) else isFalse (by intro e; cases e; exact h rfl)
+  | .ok _, .error _ => isFalse (by intro e; cases e)
+  | .error _, .ok _ => isFalse (by intro e; cases e)
+
+/-- parsing.h:383 `_UnquoteTab` without the `u` entry -/
+def simpleEsc (c : UInt8) : Option UInt8 :=
+  if c == 34 then some 34
+  else if c == 47 then some 47
+  else if c == 92 then some 92
+  else if c == 98 then some 8
+  else if c == 102 then some 12
+  else if c == 110 then some 10
+  else if c == 114 then some 13
+  else if c == 116 then some 9
+  else none
+
+/-- parsing.h:491-502: four hexadecimal digits (either case) -/
+def hex4 (a b c d : UInt8) : Option Nat :=
+  match hexVal a, hexVal b, hexVal c, hexVal d with
+  | some x, some y, some z, some w => some (x.toNat * 4096 + y.toNat * 256 + z.toNat * 16 + w.toNat)
+  | _, _, _, _ => none
+
+/-- U+FFFD (parsing.h:485 unirep) -/
+def fffd : Bytes := [239, 191, 189]
+
+/-- a lone surrogate half (unquote.c:142-149, 164-172): U+FFFD or ERR_INVALID_UNICODE -/
+def lone (unirep : Bool) (sp : Bytes) : Except UErr (Bytes × Bytes) :=
+  if unirep then .ok (fffd, sp) else .error .unicode
+
+/-- unquote.c:134-138: in double mode one extra backslash in front of the second escape is skipped -/
+def skipDbl (dbl : Bool) (sp : Bytes) : Bytes :=
+  if dbl then (match sp with
+    | e :: t => if e == 92 then t else sp
+    | [] => sp) else sp
+
+/-- unquote.c:141-190: `r0` is a surrogate code unit, `sp` the input behind its escape.
+    `goto retry_decode` with `r0 = r1` (unquote.c:160-163) is modelled by handing the second escape
+    back to the main loop un-consumed: the loop then executes exactly the statements of lines 20-96 with
+    `sp[-1] = 'u'` and arrives at `retry_decode` in the same state (in double mode the skipped extra
+    backslash stays skipped, which is also what the C code does). -/
+def pairRune (unirep : Bool) (r0 : Nat) (sp : Bytes) : Except UErr (Bytes × Bytes) :=
+  match sp with
+  | e :: u :: a :: b :: c :: d :: rest =>
+    if e != 92 || u != 117 || r0 > 56319 then lone unirep sp          -- unquote.c:142
+    else
+      match hex4 a b c d with
+      | none => .error .inval                                         -- unquote.c:152-156
+      | some r1 =>
+        if r1 < 56320 || r1 > 57343 then lone unirep sp               -- unquote.c:164-172
+        else .ok (encodeScalar ((r0 - 55296) * 1024 + (r1 - 56320) + 65536), rest)
+  | _ => lone unirep sp                                               -- unquote.c:142-149
+
+/-- unquote.c:98-190 (`retry_decode`): the code unit `r0` of a `\uXXXX` just read, `sp` = input behind it.
+    Returns the bytes written and the input still to be processed. -/
+def decodeRune (unirep dbl : Bool) (r0 : Nat) (sp : Bytes) : Except UErr (Bytes × Bytes) :=
+  if r0 < 55296 || r0 > 57343 then .ok (encodeScalar r0, sp)          -- unquote.c:102-123
+  else if dbl && sp.isEmpty then
+    (if unirep then .ok (fffd, []) else .error .eof)                  -- unquote.c:127-133
+  else pairRune unirep r0 (skipDbl dbl sp)
+
+/-- unquote.c:68-96: `c` is the character after the backslash(es), `sp` the input behind it -/
+def escBody (unirep dbl : Bool) (c : UInt8) (sp : Bytes) : Except UErr (Bytes × Bytes) :=
+  if c == 117 then
+    match sp with
+    | a :: b :: c :: d :: rest =>
+      match hex4 a b c d with
+      | none => .error .inval                                         -- unquote.c:86-90
+      | some r0 => decodeRune unirep dbl r0 rest
+    | _ => .error .eof                                                -- unquote.c:80-83
+  else
+    match simpleEsc c with
+    | some v => .ok ([v], sp)                                         -- unquote.c:74-77
+    | none => .error .escape                                          -- unquote.c:68-71
+
+/-- unquote.c:20-66: `t` is the input behind a backslash -/
+def escStep (unirep dbl : Bool) (t : Bytes) : Except UErr (Bytes × Bytes) :=
+  match t with
+  | [] => .error .eof                                                 -- unquote.c:24-27
+  | c1 :: sp =>
+    if dbl then
+      match sp with
+      | [] => .error .eof                                             -- unquote.c:35-38
+      | x :: sp' =>
+        if c1 == 92 then
+          if x == 92 then
+            match sp' with
+            | [] => .error .eof                                       -- unquote.c:44-46
+            | y :: sp'' =>
+              if y != 34 && y != 92 then .error .inval                -- unquote.c:47-49
+              else escBody unirep dbl y sp''                          -- unquote.c:50-58
+          else escBody unirep dbl x sp'                               -- unquote.c:56-58
+        else escBody unirep dbl c1 sp
+    else escBody unirep dbl c1 sp
+
+theorem lone_rest {unirep : Bool} {sp o r : Bytes} (h : lone unirep sp = .ok (o, r)) : r = sp := by
+  unfold lone at h
+  split at h
+  · cases h; rfl
+  · cases h
+
+theorem skipDbl_le (dbl : Bool) (sp : Bytes) : (skipDbl dbl sp).length ≤ sp.length := by
+  unfold skipDbl
+  split
+  · split
+    · split <;> simp
+    · simp
+  · simp
+
+theorem pairRune_rest_le {unirep : Bool} {r0 : Nat} {sp o r : Bytes}
+    (h : pairRune unirep r0 sp = .ok (o, r)) : r.length ≤ sp.length := by
+  unfold pairRune at h
+  split at h
+  · split at h
+    · rw [lone_rest h]; simp
+    · split at h
+      · cases h
+      · split at h
+        · rw [lone_rest h]; simp
+        · simp only [Except.ok.injEq, Prod.mk.injEq] at h
+          obtain ⟨_, rfl⟩ := h
+          simp only [List.length_cons]; omega
+  · rw [lone_rest h]; simp
+
+theorem decodeRune_rest_le {unirep dbl : Bool} {r0 : Nat} {sp o r : Bytes}
+    (h : decodeRune unirep dbl r0 sp = .ok (o, r)) : r.length ≤ sp.length := by
+  unfold decodeRune at h
+  split at h
+  · cases h; simp
+  · split at h
+    · split at h
+      · cases h; simp
+      · cases h
+    · exact Nat.le_trans (pairRune_rest_le h) (skipDbl_le _ _)
+
+theorem escBody_rest_le {unirep dbl : Bool} {c : UInt8} {sp o r : Bytes}
+    (h : escBody unirep dbl c sp = .ok (o, r)) : r.length ≤ sp.length := by
+  unfold escBody at h
+  split at h
+  · split at h
+    · split at h
+      · cases h
+      · have := decodeRune_rest_le h; simp only [List.length_cons]; omega
+    · cases h
+  · split at h
+    · cases h; simp
+    · cases h
+
+theorem escStep_rest_le {unirep dbl : Bool} {t o r : Bytes}
+    (h : escStep unirep dbl t = .ok (o, r)) : r.length ≤ t.length := by
+  unfold escStep at h
+  split at h
+  · cases h
+  · split at h
+    · split at h
+      · cases h
+      · split at h
+        · split at h
+          · split at h
+            · cases h
+            · split at h
+              · cases h
+              · have := escBody_rest_le h; simp only [List.length_cons] at *; omega
+          · have := escBody_rest_le h; simp only [List.length_cons] at *; omega
+        · have := escBody_rest_le h; simp only [List.length_cons] at *; omega
+    · have := escBody_rest_le h; simp only [List.length_cons] at *; omega
+
+/-- `pre` was written; then the rest of the input is processed -/
+def consOk (pre : Bytes) : Except UErr Bytes → Except UErr Bytes
+  | .ok o => .ok (pre ++ o)
+  | .error e => .error e
+
+/-- native/unquote.c `unquote(sp, nb, dp, ep, flags)`: `unirep` = F_UNICODE_REPLACE, `dbl` = F_DOUBLE_UNQUOTE.
+    Bytes other than a backslash are copied (memcchr_p32, unquote.c:11,197). -/
+def unquote (unirep dbl : Bool) (s : Bytes) : Except UErr Bytes :=
+  match s with
+  | [] => .ok []
+  | c :: t =>
+    if c == 92 then
+      match _h : escStep unirep dbl t with
+      | .error e => .error e
+      | .ok (o, r) => consOk o (unquote unirep dbl r)
+    else consOk [c] (unquote unirep dbl t)
+termination_by s.length
+decreasing_by
+  · have := escStep_rest_le _h
+    simp only [List.length_cons]; omega
+  · simp
+
+/-- `unquote.String` (unquote/unquote.go:30) -/
+def unquoteString (s : Bytes) : Except UErr Bytes := unquote true false s
+
+/-! ### the same routines behind Marshal / Unmarshal -/
+
+/-- internal/encoder/encoder.go:225 `encodeFinish`: HTML escaping first, then (ValidateString) every
+    ill-formed byte replaced by the six characters `�` -/
+def encodeFinish (escHtml validStr : Bool) (buf : Bytes) : Bytes :=
+  let b1 := if escHtml then htmlEscape buf else buf
+  if validStr && !validate b1 then correctWith [92, 117, 102, 102, 102, 100] b1 else b1
+
+/-- body of a JSON string as the decoder's scanner delimits it (vstring): every backslash takes the next
+    byte with it, a bare quote ends the string.  `true` when `b` placed between two quotes is exactly
+    one string token. -/
+def scanBodyOk : Bytes → Bool
+  | [] => true
+  | 92 :: _ :: t => scanBodyOk t
+  | [92] => false
+  | c :: t => if c == 34 then false else scanBodyOk t
+
+def hasCtl (s : Bytes) : Bool := s.any (· < 32)
+
+/-- decoding the document `"` body `"` into a Go string: `std` = ConfigStd (whole document corrected with
+    U+FFFD first, internal/decoder/jitdec/decoder.go:55, then control characters rejected), `uerr` =
+    OptionUseUnicodeErrors (no F_UNICODE_REPLACE), `dbl` = the `,string` form (body is the part between
+    `\"` and `\"`, assembler_regabi_amd64.go:1496 + 938). `none` = any error. -/
+def decodeString (std uerr dbl : Bool) (body : Bytes) : Option Bytes :=
+  let b := if std then correctWith fffd body else body
+  if !scanBodyOk b then none
+  else if std && hasCtl b then none
+  else match unquote (!uerr) dbl b with
+    | .ok o => some o
+    | .error _ => none
+
+/-- what "double unquoting" means (and what encoding/json does for a `,string` field): unquote, then
+    unquote the result.  `unquote _ true` is sonic's one-pass version of it. -/
+def unquoteTwice (unirep : Bool) (s : Bytes) : Except UErr Bytes :=
+  match unquote unirep false s with
+  | .ok o => unquote unirep false o
+  | .error e => .error e
+
+/-- `decodeString` for the `,string` form with the two-pass definition in place of the one-pass routine -/
+def decodeStringTwice (std uerr : Bool) (body : Bytes) : Option Bytes :=
+  let b := if std then correctWith fffd body else body
+  if !scanBodyOk b then none
+  else if std && hasCtl b then none
+  else match unquoteTwice (!uerr) b with
+    | .ok o => some o
+    | .error _ => none
 
 end SonicSpec.Str
